@@ -275,9 +275,56 @@ def operands_part(ctx, out):
     return n, n
 
 
+def _pair_chunk(arg):
+    """name/denotation uniqueness across the union of two fluent programs built over ONE shared source"""
+    from vf.checks import c13
+
+    pairs, ops = arg
+    res = []
+    for (i, j) in pairs:
+        try:
+            src = fr.source_impl(0, (2, 3), (2,))
+            r0 = fr.source_ref(0, (2, 3), (2,))
+            a = fr.apply_impl(src, ops[i], r0)
+            b = fr.apply_impl(src, ops[j], r0)
+            nodes = list((a.graph() + b.graph()).nodes())
+        except Exception as e:
+            continue  # operation errors are C13's subject
+        memo: dict = {}
+        byname: dict = {}
+        innames: dict = {}
+        for node in nodes:
+            byname.setdefault(node.name, set()).add(denotation(node, memo))
+            innames.setdefault(node.name, set()).add(tuple(sorted((k, s.parent.name, s.name) for k, s in node.inputs.items())))
+        for name, ds in byname.items():
+            if len(ds) > 1:
+                dl = list(ds)
+                cause = classify(dl[0], dl[1], None, None)
+                if cause == "different inputs" and len(innames[name]) == 1:
+                    continue
+                res.append(({"monitor": "name_collision", "cause": cause}, f"programs {ops[i]} and {ops[j]} over a shared source: name {name[:40]} carries {len(ds)} computations",
+                            {"part": "pairs", "ops": [ops[i], ops[j]]}))
+    return res
+
+
+def pairs_part(ctx, out):
+    from vf.checks import c13
+
+    r0 = fr.source_ref(0, (2, 3), (2,))
+    ops = [op for op in c13.ops_for(r0, True, 0) if op[0] not in ("broadcast",)]
+    pairs = [(i, j) for i in range(len(ops)) for j in range(i, len(ops))]
+    chunks = [(pairs[k::64], ops) for k in range(64)]
+    for res in common.pmap(_pair_chunk, chunks):
+        out.extend(res)
+    return len(pairs), len(pairs) - len(ops)
+
+
 def run(ctx):
     out: list = []
     n1, nt1 = names_part(ctx, out)
+    if not ctx.quick:
+        n4, nt4 = pairs_part(ctx, out)
+        n1, nt1 = n1 + n4, nt1 + nt4
     n2, nt2 = reproducibility_part(ctx, out)
     n3, nt3 = operands_part(ctx, out)
     for sig, msg, rp in out:
@@ -293,6 +340,8 @@ def run(ctx):
 
 def replay(ctx, data):
     out: list = []
+    if data["part"] == "pairs":
+        return [common.Violation(sig, msg, rp) for sig, msg, rp in _pair_chunk(([(0, 1)], data["ops"]))]
     if data["part"] == "names":
         names_part(ctx, out)
     elif data["part"] == "repro":
